@@ -417,6 +417,12 @@ def check(model, rep, tier):
       if k:
         w[i] = k
     rng = g.count_range(w, skip_labels=())
+    # a push / pop written inside an `assert` disappears with the assertion when
+    # the interpreter runs with -O
+    in_assert = [core.norm(a_)[:60] for a_ in ast.walk(fi.node) if isinstance(a_, ast.Assert)
+                 and any(x is c for c in good for x in ast.walk(a_))]
+    if in_assert:
+      rng = (0, rng[1]) if rng else rng
     rep.check(rng == (1, 1), 'CTX-PUSHPOP', site,
               '%s happens %s times on some path of %s (must be exactly once '
               'on every path)' % (label, rng, fi.qualname),
